@@ -46,6 +46,13 @@ theorem buffer_tail_untouched (back : Bytes) (len : Nat) (chunks : List Bytes) :
     (encodeObjectM back len chunks).2.2.drop len = back.drop len :=
   encodeObject_tail_untouched back len chunks
 
+/-- the usual call, `buf := make([]byte, EncodedSize(v))`: success, n = len(buf), and the whole buffer is
+    exactly the message -/
+theorem exact_buffer_is_the_message (back : Bytes) (chunks : List Bytes)
+    (hlen : back.length = chunks.flatten.length) :
+    encodeObjectM back back.length chunks = (back.length, true, chunks.flatten) := by
+  rw [encodeObject_fits back back.length chunks (by omega), ← hlen, List.drop_length, List.append_nil]
+
 /-- frugal.go really is `Append(buf[:0:len(buf)], v)` + `len(ret) > len(buf)` (regenerated fact) -/
 theorem code_follows_buffer_model : Generated.facts.bufferContract = true := Instances.facts_bufferContract
 
